@@ -229,7 +229,8 @@ pub(crate) fn attr<'a>(x: &'a X, k: &str) -> Option<&'a str> {
     }
 }
 
-/// the text of the Lean driver: `(tag k=xHEX … child …)`, text = `"HEX`; methods sorted by name
+/// the text of the Lean driver: `(tag k=xHEX … child …)`, text = `"HEX`; everything in document
+/// order (the model lists the methods of a class by name itself, as `sorted_functions` does)
 fn canon_xml(x: &X, out: &mut String) {
     match x {
         X::T(s) => {
@@ -250,17 +251,43 @@ fn canon_xml(x: &X, out: &mut String) {
                     out.push_str(&hex(v.as_bytes()));
                 }
             }
-            let mut ks: Vec<&X> = kids.iter().collect();
-            if tag == "methods" {
-                ks.sort_by(|a, b| attr(a, "name").unwrap_or("").as_bytes().cmp(attr(b, "name").unwrap_or("").as_bytes()));
-            }
-            for k in ks {
+            for k in kids {
                 out.push(' ');
                 canon_xml(k, out);
             }
             out.push(')');
         }
     }
+}
+
+/// per `<class>`: (filename, the names of its `<method>` elements in document order)
+pub(crate) fn method_names(x: &X) -> Result<Vec<(String, Vec<String>)>, String> {
+    fn walk(x: &X, out: &mut Vec<(String, Vec<String>)>) -> Result<(), String> {
+        if let X::E { tag, kids, .. } = x {
+            if tag == "class" {
+                let f = attr(x, "filename").ok_or("class without filename")?.to_string();
+                let mut names = vec![];
+                for k in kids {
+                    if let X::E { tag: t, kids: ms, .. } = k {
+                        if t == "methods" {
+                            for m in ms {
+                                names.push(attr(m, "name").ok_or("method without name")?.to_string());
+                            }
+                        }
+                    }
+                }
+                out.push((f, names));
+            } else {
+                for k in kids {
+                    walk(k, out)?;
+                }
+            }
+        }
+        Ok(())
+    }
+    let mut out = vec![];
+    walk(x, &mut out)?;
+    Ok(out)
 }
 
 // ---- typed cobertura tree (strict reader of the generic tree) ---------------------------------
@@ -590,7 +617,7 @@ fn show_lists(l: &Lists) -> String {
     format!("{}|{}|{}|{}", show_u32s(&l.cov), show_u32s(&l.unc), l.tc, l.tu)
 }
 
-/// the driver's text: function records of a file sorted by name, then its file record
+/// the driver's text: the function records of a file in document order, then its file record
 fn canon_ade(recs: &[ARec]) -> String {
     let mut out = vec!["ok".to_string()];
     let mut group: Vec<&ARec> = vec![];
@@ -598,7 +625,6 @@ fn canon_ade(recs: &[ARec]) -> String {
         match &r.file_lists {
             None => group.push(r),
             Some(fl) => {
-                group.sort_by(|a, b| a.name.as_ref().unwrap().as_bytes().cmp(b.name.as_ref().unwrap().as_bytes()));
                 for m in group.drain(..) {
                     out.push(format!("M{}|{}|{}", hex(m.file.as_bytes()), hex(m.name.as_ref().unwrap().as_bytes()), show_lists(&m.method)));
                 }
@@ -861,38 +887,67 @@ fn stem_stream(rep: &mut Report, rng: &mut Rng) {
     }
 }
 
-/// demangling on: names are rewritten by symbolic-demangle (opaque here); only the structure is
-/// checked: same packages/classes/class lines, one method / one record per function
+/// demangling ON (the CLI default): result sets with names that really demangle (`dm.rs`: C++
+/// overloads, constructor variants, Rust legacy hashes, …; many files have two functions that print
+/// alike) through the real `output_cobertura` / `output_activedata_etl`; the documents are compared
+/// tree for tree / record for record, IN DOCUMENT ORDER, with the model, which gets the printed
+/// names as a table and sorts by the mangled names itself. The structure is checked independently.
 fn demangle_stream(rep: &mut Report, rng: &mut Rng) {
     let out = rep.workdir.join("cobade_out");
-    for _ in 0..rep.budget(40, 5) {
-        let rs = gen_set(rng);
+    let mut dm = crate::dm::Dm::new(&rep.workdir);
+    let mut reqs: Vec<String> = vec![];
+    let mut got: Vec<(RS, String, String)> = vec![];
+    for _ in 0..rep.budget(300, 8) {
+        let mut rs = gen_set(rng);
         if rs.iter().any(|r| r.2.lines.keys().last() == Some(&u32::MAX)) {
             continue;
         }
-        rep.case(&format!("demangle {}", shown(&rs)), rs.iter().any(|r| r.2.functions.keys().any(|n| n.starts_with("_Z"))));
+        crate::dm::sprinkle(rng, &mut rs);
+        if let Err(e) = dm.resolve_set(&rs) {
+            rep.fail("oracle", None, e, case_json("c03.cobade.demangle", &rs, None, json!(null)));
+            continue;
+        }
+        let collide = rs.iter().any(|r| dm.collides(true, &r.2));
+        rep.case(&format!("demangle {}", shown(&rs)), collide);
         rep.count("demangle.sets");
+        if collide {
+            rep.count("demangle.sets_with_two_functions_printing_alike");
+        }
         let _ = std::fs::create_dir_all(&out);
         let p = out.join("dm.xml");
+        let _ = std::fs::remove_file(&p);
         let ok = guarded(|| output_cobertura(None, &rs, Some(&p), true, false)).is_ok();
-        let doc = if ok { parse_xml(&std::fs::read_to_string(&p).unwrap_or_default()).and_then(|x| typed_doc(&x)) } else { Err("writer panicked".into()) };
+        let tree = if ok { parse_xml(&std::fs::read_to_string(&p).unwrap_or_default()) } else { Err("writer panicked".into()) };
+        let doc = tree.clone().and_then(|x| typed_doc(&x));
         let good = match &doc {
             Err(_) => false,
             Ok(d) => {
                 d.packages.len() == rs.len()
                     && d.packages.iter().zip(rs.iter()).all(|(p, (_, rel, c))| {
+                        let mut names: Vec<String> = p.classes.get(0).map(|k| k.methods.iter().map(|m| m.name.clone()).collect()).unwrap_or_default();
+                        names.sort();
+                        let mut want: Vec<String> = c.functions.keys().map(|n| dm.name(true, n)).collect();
+                        want.sort();
                         p.name == rel.to_str().unwrap()
                             && p.classes.len() == 1
                             && p.classes[0].lines == c.lines.keys().map(|l| want_line(c, *l)).collect::<Vec<_>>()
-                            && p.classes[0].methods.len() == c.functions.len()
-                            && (!c.functions.contains_key("_ZN3foo3barEv") || p.classes[0].methods.iter().any(|m| m.name == "foo::bar"))
+                            && names == want
                     })
             }
         };
         if !good {
-            rep.fail("oracle", None, format!("cobertura with demangling: structure differs ({:?})", doc.err()), case_json("c03.cobade.demangle", &rs, None, json!(null)));
+            rep.fail("oracle", None, format!("cobertura with demangling: structure or printed method names differ ({:?})", doc.err()), case_json("c03.cobade.demangle", &rs, None, json!(null)));
         }
+        let cob = match &tree {
+            Ok(x) => {
+                let mut s = String::from("ok ");
+                canon_xml(x, &mut s);
+                s
+            }
+            Err(e) => format!("undecodable: {}", e),
+        };
         let p = out.join("dm.json");
+        let _ = std::fs::remove_file(&p);
         let ok = guarded(|| output_activedata_etl(&rs, Some(&p), true)).is_ok();
         let recs = if ok { parse_ade(&std::fs::read_to_string(&p).unwrap_or_default()) } else { Err("writer panicked".into()) };
         let good = match &recs {
@@ -900,7 +955,31 @@ fn demangle_stream(rep: &mut Report, rng: &mut Rng) {
             Ok(v) => v.len() == rs.iter().map(|r| r.2.functions.len() + 1).sum::<usize>() && v.iter().filter(|r| r.file_lists.is_some()).map(|r| r.file.as_str()).collect::<Vec<_>>() == rs.iter().map(|r| r.1.to_str().unwrap()).collect::<Vec<_>>(),
         };
         if !good {
-            rep.fail("oracle", None, format!("ade with demangling: structure differs ({:?})", recs.err()), case_json("c03.cobade.demangle", &rs, None, json!(null)));
+            rep.fail("oracle", None, format!("ade with demangling: structure differs ({:?})", recs.as_ref().err()), case_json("c03.cobade.demangle", &rs, None, json!(null)));
+        }
+        let ade = match &recs {
+            Ok(v) => canon_ade(v),
+            Err(e) => format!("undecodable: {}", e),
+        };
+        let s = shown(&rs);
+        let d = dm.arg(true, &rs);
+        reqs.push(format!("c03.cob.tree - {} {}", d, s).trim_end().to_string());
+        reqs.push(format!("c03.ade {} {}", d, s).trim_end().to_string());
+        got.push((rs, cob, ade));
+    }
+    let ans = run_model(&reqs, &rep.workdir, "c03cobadedm");
+    for (k, (rs, cob, ade)) in got.iter().enumerate() {
+        for (fmt, real, model) in [("cobertura", cob, &ans[2 * k]), ("ade", ade, &ans[2 * k + 1])] {
+            rep.count(&format!("demangle.tie.{}", fmt));
+            if real != model {
+                rep.disagreements_checked += 1;
+                rep.fail(
+                    "disagreement",
+                    None,
+                    format!("{} with demangling on: the document written by the implementation differs from the CobAde model (functions listed by mangled name, printed demangled)", fmt),
+                    json!({"op": "c03.cobade.demangle", "results": shown(rs), "request": reqs[2 * k + if fmt == "ade" { 1 } else { 0 }], "impl": real.chars().take(1500).collect::<String>(), "model": model.chars().take(1500).collect::<String>()}),
+                );
+            }
         }
     }
 }
@@ -1066,6 +1145,10 @@ pub fn run(rep: &mut Report) {
 
 pub fn replay(rep: &mut Report, case: &Value) {
     let op = case["op"].as_str().unwrap_or("");
+    if op == "c03.cobade.demangle" {
+        rep.notes.push("replay of a demangle-on CobAde case: re-run ./check C03 with the same seed (the request is in the case)".into());
+        return;
+    }
     if op.starts_with("c03.cobbytes") {
         return crate::cobbytes::replay(rep, case);
     }
